@@ -114,6 +114,7 @@ type prop struct {
 	stats    *propStats
 	sigs     map[string]func(raw json.RawMessage) bool
 	required []string
+	twins    int
 }
 
 var (
@@ -137,6 +138,11 @@ type Options struct {
 	Required []string
 	// Rule: one-line statement of the non-triviality rule (goes to evidence).
 	Rule string
+	// Twins > 1: one case in eight (chosen by the hash of the case) is executed by this many goroutines at the same
+	// time, each on objects of its own. Independent objects share nothing, so every instance must pass exactly as a
+	// single one does; state shared behind the scenes (package-level buffers, pools, caches) shows as interference.
+	// Only for run functions that keep no state of their own outside the case.
+	Twins int
 }
 
 // Stats returns (creating it on first use) the collector for a non-rapid
@@ -269,7 +275,7 @@ func Register[C any](name string, opt Options, gen func(t *rapid.T) C, run func(
 	st := &propStats{Name: name, Classes: map[string]int64{}, hashes: map[uint64]struct{}{}, KnownHits: map[string]int64{}, Required: opt.Required, Rule: opt.Rule}
 	allStats = append(allStats, st)
 	known := knownSigs()
-	safeRun := func(c C, r *Rec) (err error) {
+	single := func(c C, r *Rec) (err error) {
 		defer func() {
 			if p := recover(); p != nil {
 				err = fmt.Errorf("PANIC: %v\n%s", p, trimStack(debug.Stack()))
@@ -277,7 +283,47 @@ func Register[C any](name string, opt Options, gen func(t *rapid.T) C, run func(
 		}()
 		return run(c, r)
 	}
-	p := &prop{name: name, base: opt.Base, stats: st, required: opt.Required}
+	safeRun := func(c C, r *Rec) error {
+		if opt.Twins <= 1 {
+			return single(c, r)
+		}
+		canon, _ := json.Marshal(c)
+		h := fnv.New64a()
+		h.Write(canon)
+		every := uint64(8)
+		if v, err := strconv.Atoi(os.Getenv("VERIF_TWINS_EVERY")); err == nil && v > 0 {
+			every = uint64(v)
+		}
+		if h.Sum64()%every != 0 {
+			return single(c, r)
+		}
+		errs := make([]error, opt.Twins)
+		recs := make([]*Rec, opt.Twins)
+		var wg sync.WaitGroup
+		for i := range errs {
+			recs[i] = &Rec{}
+			wg.Add(1)
+			go func(i int) {
+				defer wg.Done()
+				errs[i] = single(c, recs[i])
+			}(i)
+		}
+		wg.Wait()
+		if r != nil {
+			*r = *recs[0]
+			r.Class("executed by several goroutines at once on independent objects")
+		}
+		for _, e := range errs {
+			if e != nil {
+				if alone := single(c, &Rec{}); alone != nil {
+					return alone // fails on its own as well: report it as the plain failure it is
+				}
+				return fmt.Errorf("the case passes when executed alone, but with %d goroutines executing it at the same time, each on its own objects, one of them fails (state shared between independent objects?): %v", opt.Twins, e)
+			}
+		}
+		return nil
+	}
+	p := &prop{name: name, base: opt.Base, stats: st, required: opt.Required, twins: opt.Twins}
 	p.check = func(t *rapid.T) {
 		c := gen(t)
 		// exclusion-by-construction of listed known findings
@@ -444,6 +490,9 @@ func RunProps(t *testing.T) {
 	for _, p := range props {
 		if only != "" && !strings.Contains(","+only+",", ","+p.name+",") {
 			continue
+		}
+		if os.Getenv("VERIF_TWINS_ONLY") != "" && p.twins <= 1 {
+			continue // the "independent objects at the same time" job: only sub-checks that declared themselves safe for it
 		}
 		p := p
 		t.Run(p.name, func(t *testing.T) {
